@@ -32,7 +32,7 @@ RULE = ("synthetic disparity maps, values multiples of 1/4 in [-8, 8]; shapes fr
         "{3,5,52,101} (either orientation); invalid pixels (random flag combinations, ratio 0/20/60/100 %, rectangular "
         "blobs covering whole windows, a few NaN disparities on flag-valid pixels); median: filter_size 1/3/5/7 including "
         "images smaller than the window (returned untouched since the fix: commit); bilateral: sigma_space in {0.25,0.4,0.5,1,1.5,2,6}, "
-        "sigma_color in {0.5,1,2,4}; median_for_intervals on two bound bands with their own NaN, with and without "
+        "sigma_color in {0.05,0.5,1,2,4} (0.05: far range weights underflow to 0); median_for_intervals on two bound bands with their own NaN, with and without "
         "regularisation (interval_regularization observed by wrapping the module attribute); a case is non-trivial when "
         "the map has an interior valid pixel whose window holds an invalid pixel or >= 2 distinct valid values; distinct "
         "by (filter, shape, parameters, case seed)")
@@ -393,6 +393,15 @@ def run_bilateral(ctx, model, p):
         deltas = np.zeros((1,), dtype=np.float32)
     rk = f.normalized_gaussian(deltas, sc)
     rk_tbl = [[wq(d), wq(x)] for d, x in zip(deltas.tolist(), np.asarray(rk, dtype=np.float64).tolist())]
+    # hypotheses of C10_bilateral_eq_weighted_mean on the kernels of THIS run (kernel_ok): nowhere negative, a pixel weighs
+    # on itself; strictly positive (kernel_pos) is counted, not required (far tails underflow to 0 in float32)
+    skf, rkf = np.asarray(sk, dtype=np.float64), np.asarray(rk, dtype=np.float64)
+    rk0 = rkf[deltas == 0]
+    if not (np.all(skf >= 0) and np.all(rkf >= 0) and skf[win // 2, win // 2] > 0 and len(rk0) == 1 and rk0[0] > 0
+            and np.all(np.isfinite(skf)) and np.all(np.isfinite(rkf))):
+        ctx.broken_obligation("bilateral_kernel_ok", f"the Gaussian kernels of sigma_space {ss}, sigma_color {sc} do not satisfy "
+                              f"the hypothesis kernel_ok of the bilateral theorems (negative, non-finite or zero self weight)")
+    ctx.count("bilateral_kernel_strictly_positive" if np.all(skf > 0) and np.all(rkf > 0) else "bilateral_kernel_with_zero_weights")
     marg = (2, [0, ny, nx, wq(ss), wire_map(np.asarray(sk, dtype=np.float64)), rk_tbl, wire_map(disp), wire_zmap(mask)])
 
     def after(mres):
@@ -577,7 +586,7 @@ def gen_cases(rng, quick):
         ny, nx = gen_shape(rng, small=True)
         if ss >= 1.5 and ny * nx > 1300:
             ss = rng.choice([0.4, 0.5, 1.0])
-        cases.append({"filter": "bilateral", "ny": ny, "nx": nx, "sigma_space": ss, "sigma_color": rng.choice([0.5, 1.0, 2.0, 4.0]),
+        cases.append({"filter": "bilateral", "ny": ny, "nx": nx, "sigma_space": ss, "sigma_color": rng.choice([0.05, 0.5, 1.0, 2.0, 4.0]),
                       "seed": rng.randrange(1 << 30), "inv": rng.choice([0.0, 0.2, 0.2, 0.6])})
     n_mfi = 24 if quick else 200
     for i in range(n_mfi):
